@@ -262,9 +262,18 @@ class CFG:
         self.G = nx.DiGraph()
         for b in g["blocks"]:
             self.G.add_node(b["id"])
-            for s in b["s"]:
-                if s is not None:
+            # edges whose branch condition is a compile-time constant (template argument
+            # substituted) are pruned: `if (limited)` in the <false> instantiation is dead code
+            dead = None
+            if "cond" in b and len(b["s"]) == 2 and b.get("termk") != "SwitchStmt":
+                cv = const_val(fn.nodes.get(b["cond"]))
+                if cv is not None:
+                    dead = 0 if cv == 0 else 1
+            for i, s in enumerate(b["s"]):
+                if s is not None and i != dead:
                     self.G.add_edge(b["id"], s)
+            if dead is not None:
+                b["s"] = [x if i != dead else None for i, x in enumerate(b["s"])]
         self.where = {}
         for b in g["blocks"]:
             for i, e in enumerate(b["e"]):
@@ -284,7 +293,9 @@ class CFG:
         return None
 
     def reachable_blocks(self):
-        return nx.descendants(self.G, self.entry) | {self.entry}
+        if getattr(self, "_reach", None) is None:
+            self._reach = nx.descendants(self.G, self.entry) | {self.entry}
+        return self._reach
 
     def dom(self):
         if self._dom is None:
@@ -458,9 +469,29 @@ class DB:
     def load_all(self):
         if self._byname is None:
             self._byname = {}
+            self._bykey = {}
             for fn in self.all_functions():
                 self._byname.setdefault(fn.name, []).append(fn)
+                self._bykey.setdefault((fn.key, fn.sig), fn)
         return self._byname
+
+    def resolve(self, call):
+        """definition of the callee of a call node (None for library / undefined callees)"""
+        h = callee_node(call)
+        if h is None:
+            return None
+        self.load_all()
+        return self._bykey.get((h.get("key"), h.get("csig")))
+
+    def overriders(self, qname, sig):
+        """definitions of all methods overriding the virtual method qname(sig) (transitively)"""
+        self.load_all()
+        out = []
+        for fns in self._byname.values():
+            for f in fns:
+                if f.sig == sig and qname in f.d.get("overrides", []):
+                    out.append(f)
+        return out
 
     def fns(self, name, files=None, required=True):
         """all definitions (overloads, instantiations) with this qualified name"""
